@@ -72,6 +72,7 @@ Proof.
   - rewrite len_strs. reflexivity.
   - rewrite len_app, len_be. lia.
   - reflexivity.
+  - reflexivity.
 Qed.
 
 Lemma wf_fvals_any ctor s v :
@@ -178,6 +179,12 @@ Proof.
     destruct (N.ltb_spec (lim - pos) (N.of_nat min)) as [L|L]; [unfold len in *; lia|].
     rewrite (rd_at _ _ _ _ pre b post Hm Hp); [| lia | lia].
     cbn [bind fst snd]. f_equal. f_equal. lia.
+  - (* FChecked *)
+    destruct Hlim as [[Hd _]|Hlim]; [discriminate|].
+    apply andb_true_iff in Hw as [_ Hc].
+    rewrite (rd_at _ _ _ _ pre b post Hm Hp); [| lia | lia].
+    cbn [bind fst snd]. destruct (rest_check k b); [discriminate|].
+    f_equal. f_equal. lia.
 Qed.
 
 Lemma parse_fields_compose s : forall v pre post lim,
@@ -238,7 +245,8 @@ Theorem parse_compose s v pre post :
   parse_rdata dec s (pre ++ compose s v ++ post) (len pre) (len pre + len (compose s v)) = Ok v.
 Proof.
   unfold wf_schema_full, wf_value, wf_schema. intros Hs Hv.
-  apply andb_true_iff in Hs as [Hs Hk]. apply andb_true_iff in Hv as [Hv Ht].
+  apply andb_true_iff in Hs as [Hs Hk]. apply andb_true_iff in Hv as [Hv Hpost].
+  apply andb_true_iff in Hv as [Hv Ht].
   unfold parse_rdata, parse_type, compose.
   pose proof (wf_fvals_any _ _ _ Hv false) as Hlen. unfold total_len in Ht.
   assert (Hpf := parse_fields_compose (s_fields s) v pre post _ Hs Hv eq_refl).
@@ -246,8 +254,8 @@ Proof.
   - pose proof (fixed_len_le _ _ Hv).
     destruct (N.ltb_spec (len pre + len (compose_fields false (s_fields s) v) - len pre) k); [lia|].
     destruct (N.ltb_spec 65535 (len pre + len (compose_fields false (s_fields s) v) - len pre - k)); [lia|].
-    rewrite Hpf. cbn [bind fst snd]. rewrite N.eqb_refl. reflexivity.
-  - rewrite Hpf. cbn [bind fst snd]. rewrite N.eqb_refl. reflexivity.
+    rewrite Hpf. cbn [bind fst snd]. rewrite N.eqb_refl, Hpost. reflexivity.
+  - rewrite Hpf. cbn [bind fst snd]. rewrite N.eqb_refl, Hpost. reflexivity.
 Qed.
 
 End Generic.
@@ -259,7 +267,7 @@ Theorem rdlen_exact s v :
   rdlen s true v = (if has_compressible s then Ok None else Ok (Some (len (compose s v)))).
 Proof.
   unfold wf_value, rdlen, total_len, compose. intros H.
-  apply andb_true_iff in H as [Hv Ht].
+  apply andb_true_iff in H as [H _]. apply andb_true_iff in H as [Hv Ht].
   rewrite <- (wf_fvals_any _ _ _ Hv false).
   destruct (N.ltb_spec 65535 (fields_len (s_fields s) v)); [lia|].
   cbn [andb]. destruct (has_compressible s); auto.
@@ -271,7 +279,8 @@ Theorem rdlen_never_lies s v c k :
   ctor_accepts s v = true -> rdlen s c v = Ok (Some k) -> k = len (compose s v).
 Proof.
   unfold ctor_accepts, rdlen, total_len, compose. intros H.
-  apply andb_true_iff in H as [Hv _]. rewrite <- (wf_fvals_any _ _ _ Hv false).
+  apply andb_true_iff in H as [H _]. apply andb_true_iff in H as [Hv _].
+  rewrite <- (wf_fvals_any _ _ _ Hv false).
   destruct (c && has_compressible s); [discriminate|].
   destruct (65535 <? fields_len (s_fields s) v); [discriminate|].
   intros E. injection E as <-. reflexivity.
@@ -281,7 +290,7 @@ Qed.
 Lemma compose_field_canon f x :
   compose_field true f x = compose_field false f (lower_field f x).
 Proof.
-  destruct f as [w|k|c l|chk| | |mn], x; try reflexivity; destruct l; reflexivity.
+  destruct f as [w|k|c l|chk| | |mn|ck], x; try reflexivity; destruct l; reflexivity.
 Qed.
 
 Theorem canonical_only_lowercases s v :
@@ -308,7 +317,8 @@ Qed.
 Theorem canonical_same_length s v :
   wf_value s v = true -> len (compose_canonical s v) = len (compose s v).
 Proof.
-  unfold wf_value, compose_canonical, compose. intros H. apply andb_true_iff in H as [Hv _].
+  unfold wf_value, compose_canonical, compose. intros H. apply andb_true_iff in H as [H _].
+  apply andb_true_iff in H as [Hv _].
   rewrite <- (wf_fvals_any _ _ _ Hv true), <- (wf_fvals_any _ _ _ Hv false). reflexivity.
 Qed.
 
@@ -321,6 +331,6 @@ Proof.
   unfold compose_canonical, lower_flagged. generalize (s_fields s) as l. intros l. revert v.
   induction l as [|f l IH]; intros [|x v]; cbn [compose_fields lower_flagged_fields]; try reflexivity.
   rewrite IH. f_equal.
-  destruct f as [w|k|c lw|chk| | |mn], x; try reflexivity; destruct lw;
+  destruct f as [w|k|c lw|chk| | |mn|ck], x; try reflexivity; destruct lw;
     cbn [lower_field compose_field andb]; rewrite ?canon_idem; reflexivity.
 Qed.
